@@ -8,6 +8,23 @@ BASE_NOTE = ("Trusted: Coq 8.16.1 kernel/VM, no axioms (Print Assumptions audite
              "the Gen translators and the correspondence harness (differential testing, not proof). The theorems are about the Gallina model; ")
 
 CLAIMED = {
+    "C03": dict(
+        text="Theorems over ALL histories of one transceiver (arrivals of any octets, ticks of any frame numbers, power and version commands): accepted = emitted + stale + cleared + queued for every class of bursts "
+             "(no loss, no duplication), emitted only in the tick of its own frame, stale only for smaller frame numbers, a tick emits exactly the queued bursts of that frame in order, power-off clears; "
+             "the application tick does exactly this to every queue; and over ALL thread schedules (any length) of one arrival / POWEROFF / POWERON racing one tick at the granularity of lock sections and single "
+             "reads/writes of running / fh: conservation, on-time, no crash unless hopping + POWEROFF (refuted lemma = recorded finding). Sessions on the real Application vs the model; schedules driven on two real "
+             "threads over real FakeTRX objects (all 4096 prefixes per scenario in thorough) vs the extracted race model.",
+        note="partial: atomicity granularity (lock sections; one attribute access under the GIL) is assumed, preemption inside a bytecode or inside socket.sendto is not modelled. Recorded findings: "
+             "c03-fh-race (double read of self.fh), c03-hyperframe-wrap-stale (numeric frame comparison across the wrap).",
+        technique="Coq proof (history invariants; one-step invariants over arbitrary schedules) + extracted models vs real objects (sessions; controlled schedules on real threads)", ref="7-C03"),
+    "C05": dict(
+        text="Theorems: for every ASCII control datagram on any reachable world exactly one reply 'RSP verb status args [results] NUL' iff it begins with CMD, else none and no change; the command table "
+             "(POWERON refusal conditions, POWEROFF, RXTUNE/TXTUNE, SETFH effect for any number of channels and -1 for HSN outside 0..63, SETFORMAT applied / suggested / -1, MEASURE, SETPOWER, NOMTXPOWER, RFMUTE, "
+             "SETTA, FAKE_*, unknown verbs -> 0 without effect) for decimal arguments; no command crashes or leaves the reachable region; trxcon side (model of trx_if.c): every reply to a command trxcon emits is "
+             "matched and decided by its status, and trxcon's longest command (SETFH) fits the toolkit's receive size. Sessions vs model + independent reference table + end to end through the real trx_if.c.",
+        note="well-formed = ASCII decimal arguments (py_int models int() on ASCII tokens; other tokens: C14); control receive size probed through a fake socket; TRXC_BUF_SIZE as compiled; "
+             "time.sleep of FAKE_TRXC_DELAY virtualised.",
+        technique="Coq proof (case analysis per verb, invariants) + Gen (probed sizes, compiled constants) + extracted-model correspondence + real trx_if.c harness", ref="7-C05"),
     "C02": dict(
         text="Theorems for any set of transceivers in any state: forward_msg calls handle_data_msg for exactly the peers that are not the sender, running, and whose Rx frequency in frame FN "
              "(fixed or resolved through their own hopping sequence) equals the sender's Tx frequency in FN - once each, in order; forwarding and the tick never fail on any state reachable by "
